@@ -614,7 +614,8 @@ class TimeProxy:
         return self._c.now()
 
     def time(self):
-        return self._c.now()
+        # the calendar clock = the monotonic one plus an offset that a test may step (NTP, date -s, VM resume)
+        return self._c.now() + getattr(self._c, "wall_offset", 0.0) + 1_700_000_000.0
 
     def __getattr__(self, n):
         return getattr(self._r, n)
